@@ -54,7 +54,8 @@ pub open spec fn admitted_with_checksum<L: Loader + ?Sized>(loader: &L, ls: Url,
                 loader.load_spec(ls, lopts(dynb, dynroot, CacheSetting::Use, ck)) == Ok::<Option<LoadResponse>, LoadError>(Some(LoadResponse::External { specifier }))
             },
         PendingInfoResponse::Redirect { count, specifier, maybe_attribute_type, is_asset: a, is_dynamic, is_root } =>
-            ck is None && !in_package && redirect_count < loader.max_redirects_spec() && count == redirect_count + 1, // [checksummed_or_in_package_urls_never_redirect]
+            ck is None && !in_package && redirect_count < loader.max_redirects_spec() && count == redirect_count + 1 // [checksummed_or_in_package_urls_never_redirect]
+              && specifier != ls, // [a_redirect_to_the_requested_url_itself_is_never_followed]
     }
 }
 /// C03: "each failure becomes an error entry for the affected specifier carrying its referrer" — the loader
